@@ -512,10 +512,14 @@ impl Transport for QuicTransport {
     }
 
     fn negotiate(&mut self, connection_id: ConnectionId) -> crate::Result<()> {
-        let (connection, _address) = self
+        let (connection, address) = self
             .opened_raw
             .remove(&connection_id)
             .ok_or(Error::ConnectionDoesntExist(connection_id))?;
+
+        // The connection was dialed by the local node: remember the dialed address so that
+        // `on_connection_established()` announces a dialer endpoint instead of a listener one.
+        self.pending_dials.insert(connection_id, address);
 
         self.pending_connections
             .push(Box::pin(async move { (connection_id, Ok(connection)) }));
